@@ -336,3 +336,54 @@ func ZvC08_S1_New() {
 	_, err := c.Get("a")
 	vrt.Assert(err != nil, "C08/New/nothing-found")
 }
+
+// Cache[string,string] from an ARBITRARY stored state (two keys, each absent or stored with a
+// symbolic expiry — live, expired-but-unpurged, or non-expiring): whenever Set/SetDefault/Update
+// reports an error (rejected empty value, or duplicate live key) the stored map is exactly what it
+// was — "otherwise it errors and changes nothing"; only Delete/Flush/DeleteExpired remove entries.
+func ZvC08_S1_ErrorChangesNothing() {
+	keys := [2]string{"a", "b"}
+	vals := [2]string{"x", "y"}
+	var has [2]bool
+	var exp [2]int64
+	items := make(map[string]*Item[string])
+	n := 0
+	for i := range keys {
+		if vrt.Choice(2) == 1 {
+			has[i] = true
+			exp[i] = vrt.Int64()
+			vrt.Assume(zvValidExp(exp[i]))
+			items[keys[i]] = &Item[string]{object: vals[i], expiration: exp[i]}
+			n++
+		}
+	}
+	c := &Cache[string, string]{newCache(zvDur(), 0, items)}
+	v := vrt.Str(vrt.Choice(2))
+	d := zvDur()
+	var err error
+	which := vrt.Choice(3)
+	vrt.Assert(!vrt.Try(func() {
+		switch which {
+		case 0:
+			err = c.Set("a", v, d)
+		case 1:
+			err = c.Update("a", v, d)
+		default:
+			err = c.SetDefault("a", v)
+		}
+	}), "C08/Set/string/no-panic")
+	if len(v) == 0 {
+		vrt.Assert(err != nil, "C08/Set/rejected-value-is-reported-as-error")
+	}
+	if err != nil {
+		vrt.Assert(len(c.items) == n, "C08/Set/error-changes-nothing (entry count)")
+		for i := range keys {
+			it, ok := c.items[keys[i]]
+			vrt.Assert(ok == has[i], "C08/Set/error-changes-nothing (presence)")
+			if ok && has[i] {
+				vrt.Assert(vrt.And(it.object == vals[i], it.expiration == exp[i]), "C08/Set/error-changes-nothing (entry)")
+			}
+		}
+	}
+	vrt.Assert(vrt.LocksHeld() == 0, "C08/Set/string/lock-released")
+}
